@@ -1,6 +1,7 @@
 package otto
 
 import (
+	"fmt"
 	"math"
 	"time"
 )
@@ -67,6 +68,14 @@ func builtinDateToISOString(call FunctionCall) Value {
 	if date.isNaN {
 		// 15.9.5.43: "If the time value of this object is not a finite Number a RangeError exception is thrown."
 		panic(call.runtime.panicRangeError("Invalid time value"))
+	}
+	if year := date.Time().Year(); year < 0 || year > 9999 {
+		// 15.9.1.15.1: years outside 0000-9999 are written in the expanded form, a sign and six digits.
+		sign := "+"
+		if year < 0 {
+			sign, year = "-", -year
+		}
+		return stringValue(fmt.Sprintf("%s%06d", sign, year) + date.Time().Format("-01-02T15:04:05.000Z"))
 	}
 	return stringValue(date.Time().Format("2006-01-02T15:04:05.000Z"))
 }
